@@ -86,6 +86,13 @@ void World::drain() {
             if (n == 0) break;
         }
         handlers_run += n;
+        if ((sc.fam & F_FINE) && (sc.fam & F_INJECT) && sc.inject && !injected && cur_prefix && !capped) {
+            // handler-granular injection point: [continue draining | perform the injected action now]
+            std::vector<Event> ev(2); ev[0].k = Event::CONTINUE; ev[1].k = Event::INJECT; ev[1].deviation = true;
+            int idx = choose(ev, *cur_prefix); if (idx < 0) break;
+            ChoiceRec cr; cr.n = 2; cr.chosen = idx; cr.dev = idx == 1; cr.what = ev[idx].str() + " (between handlers)"; cr.digest = 0; choices.push_back(cr);
+            if (idx == 1) { deviations++; last_deviation_ns = now(); tr("event: inject (between handlers)  (deviation)"); injected = true; do_action(*sc.inject, false); }
+        }
         if (handlers_run - n0 > budget) { vio("C19:livelock:" + sc.name, "more than 200000 handlers ran without the client becoming quiescent"); capped = true; cap_reason = "livelock"; break; }
     }
 }
@@ -218,14 +225,14 @@ void World::apply(const Event& e) {
 }
 
 static std::string action_str(const Action& a) {
-    static const char* n[] = {"RUN", "PUB", "SUB", "UNSUB", "RECV", "DISC", "CANCEL", "DESTROY", "MOVE_ASSIGN", "SIGNAL", "BARRIER", "WAIT_HS", "BPUB", "REAUTH", "MARK_STOP", "RERUN_CHECK", "NOP"};
+    static const char* n[] = {"RUN", "PUB", "SUB", "UNSUB", "RECV", "DISC", "CANCEL", "DESTROY", "MOVE_ASSIGN", "SIGNAL", "BARRIER", "WAIT_HS", "BPUB", "REAUTH", "MARK_STOP", "RERUN_CHECK", "KILLCONN", "NOP"};
     std::string s = n[a.k]; if (a.k == Action::PUB || a.k == Action::BPUB) s += " q" + std::to_string(a.qos) + " tag" + std::to_string(a.tag); if (a.k == Action::SIGNAL) s += " op" + std::to_string(a.target_op) + " type" + std::to_string(a.sig_type);
     return s;
 }
 
 void World::on_op_complete(int id) {
     OpRec& o = ops[id];
-    o.completions++; o.t_done = now(); o.wire_mark_done = broker->wire.size(); o.wlog_mark_done = net->wlog.size(); o.inside_initiation = (initiating_op == id); o.inside_other_handler = running_handler_of >= 0;
+    o.completions++; o.t_done = now(); o.done_in_same_step = (o.step_init == step_no); o.wire_mark_done = broker->wire.size(); o.wlog_mark_done = net->wlog.size(); o.inside_initiation = (initiating_op == id); o.inside_other_handler = running_handler_of >= 0;
     tr("complete op" + std::to_string(id) + " ec=" + (o.ec ? o.ec.message() : "ok") + (o.rc >= 0 ? " rc=" + std::to_string(o.rc) : ""));
     if (o.completions == 1) {
         auto it = sc.on_complete.find(id);
@@ -238,11 +245,12 @@ void World::initiate(const Action& a) {
     int id = int(ops.size()); ops.emplace_back(); OpRec& o = ops.back();
     o.id = id; o.kind = a.k; o.qos = a.qos; o.tag = a.tag; o.retain = a.retain; o.topic = a.topic; o.payload = a.payload; o.props = a.props; o.filters = a.filters;
     o.t_init = now(); o.wire_mark = broker->wire.size(); o.expect_reject = a.expect_reject; o.expect_ec = a.expect_ec; o.epoch = epoch; o.after_stop = net->stop_marker;
-    uint64_t bytes = 0; for (auto& c : net->conns) bytes += c.bytes_c2b; o.bytes_written_at_init = bytes;
+    uint64_t bytes = 0; for (auto& c : net->conns) bytes += c.bytes_c2b; o.bytes_written_at_init = bytes; o.op_seq_init = net->op_seq; o.out_volume_before = out_volume(); o.step_init = step_no;
     if (a.expect_reject) { auto pk = client->peek(); o.lowest_free_id_before = pk.lowest_free_id; o.connack_snapshot = client->connack_props(); }
     asio::cancellation_slot slot;
     if (a.with_slot) { o.sig = std::make_shared<asio::cancellation_signal>(); slot = o.sig->slot(); }
     if (a.k == Action::RECV) o.recv_seq = recv_counter++;
+    if (a.k == Action::DISC) o.qos = a.rc;      // requested reason code
     int saved = initiating_op; initiating_op = id;
     switch (a.k) {
     case Action::RUN: client->run([this, id](error_code ec) { ops[id].ec = ec; on_op_complete(id); }, slot); break;
@@ -261,18 +269,21 @@ void World::initiate(const Action& a) {
 
 void World::do_action(const Action& a, bool from_handler) {
     tr(std::string(from_handler ? "app(in handler): " : "app: ") + action_str(a));
-    if (!client || (!client->alive() && a.k != Action::BPUB && a.k != Action::BARRIER && a.k != Action::NOP)) return;
+    if (!client || (!client->alive() && a.k != Action::BPUB && a.k != Action::BARRIER && a.k != Action::NOP && a.k != Action::KILLCONN)) return;
     switch (a.k) {
-    case Action::RUN: net->stop_marker = false; stopped_phase = false; initiate(a); break;
-    case Action::PUB: case Action::SUB: case Action::UNSUB: case Action::RECV: case Action::DISC: initiate(a); break;
-    case Action::CANCEL: client->cancel(); epoch++; net->stop_marker = true; stopped_phase = true; t_stop = now(); break;
-    case Action::DESTROY: client->destroy(); epoch++; net->stop_marker = true; stopped_phase = true; t_stop = now(); break;
-    case Action::MOVE_ASSIGN: client->move_assign_fresh(); client->brokers(sc.hosts, sc.port); client->credentials(sc.client_id, sc.user, sc.pass); client->keep_alive(sc.keep_alive); epoch++; net->stop_marker = true; stopped_phase = true; t_stop = now(); break;
-    case Action::SIGNAL: if (a.target_op >= 0 && a.target_op < int(ops.size()) && ops[a.target_op].sig && ops[a.target_op].completions == 0) { ops[a.target_op].signalled = a.sig_type; ops[a.target_op].t_signal = now();
+    case Action::RUN: if (running) { tr("  (skipped: client is already running)"); break; } running = true; net->stop_marker = false; stopped_phase = false; initiate(a); break;
+    case Action::DISC: running = false; stop_times.push_back(now()); stop_seqs.push_back(net->op_seq); initiate(a); break;
+    case Action::PUB: case Action::SUB: case Action::UNSUB: case Action::RECV: initiate(a); break;
+    case Action::CANCEL: running = false; stop_times.push_back(now()); stop_seqs.push_back(net->op_seq); client->cancel(); epoch++; net->stop_marker = true; stopped_phase = true; t_stop = now(); break;
+    case Action::DESTROY: running = false; stop_times.push_back(now()); stop_seqs.push_back(net->op_seq); client->destroy(); epoch++; net->stop_marker = true; stopped_phase = true; t_stop = now(); break;
+    case Action::MOVE_ASSIGN: running = false; stop_times.push_back(now()); stop_seqs.push_back(net->op_seq); client->move_assign_fresh(); client->brokers(sc.hosts, sc.port); client->credentials(sc.client_id, sc.user, sc.pass); client->keep_alive(sc.keep_alive); epoch++; net->stop_marker = true; stopped_phase = true; t_stop = now(); break;
+    case Action::SIGNAL: if (a.target_op == -2 && !ops.empty()) { Action b = a; b.target_op = int(ops.size()) - 1; do_action(b, from_handler); break; }
+        if (a.target_op >= 0 && a.target_op < int(ops.size()) && ops[a.target_op].sig && ops[a.target_op].completions == 0) { ops[a.target_op].signalled = a.sig_type; ops[a.target_op].t_signal = now();
             ops[a.target_op].sig->emit(a.sig_type == 1 ? asio::cancellation_type::total : a.sig_type == 2 ? asio::cancellation_type::partial : asio::cancellation_type::terminal); } break;
     case Action::BPUB: broker->push(a.tag, uint8_t(a.qos), a.topic, a.payload, a.props); break;
     case Action::REAUTH: client->re_authenticate(); break;
     case Action::MARK_STOP: net->stop_marker = true; break;
+    case Action::KILLCONN: { int c = broker->live_conn(); if (c >= 0) broker->close_conn(c); break; }
     default: break;
     }
     if (injected && &a == &*sc.inject) { /* appended actions are consumed through after_inject below */ }
@@ -288,17 +299,21 @@ void World::run(const std::vector<int>& prefix) {
     std::vector<Event> ev; bool tail_started = false; int64_t tail_until = 0; int steps = 0;
     std::vector<Action> extra;            // after_inject actions
     size_t extra_pos = 0;
+    cur_prefix = &prefix;
     drain();
     for (;;) {
         if (capped) break;
+        if (stopped_phase && !stop_snap.done) take_stop_snapshot("after stop");
         enabled(ev);
         // actions scheduled after the injection behave like further script actions (default order: after network events)
         bool script_done = script_pos >= sc.script.size();
         // a WAIT_HS that can no longer be satisfied (nothing outstanding, network quiet) ends the script
         if (!script_done && sc.script[script_pos].k == Action::WAIT_HS && !app_action_enabled() && all_user_ops_done()) { bool net_def = false; for (auto& e : ev) if (!e.deviation && e.k != Event::TIME && e.k != Event::APP) net_def = true; if (!net_def) script_done = true; }
         bool has_net_default = false; for (auto& e : ev) if (!e.deviation && e.k != Event::TIME && e.k != Event::APP) has_net_default = true;
-        if (injected && extra_pos < sc.after_inject.size() && script_done && !has_net_default) { do_action(sc.after_inject[extra_pos++], false); drain(); continue; }
-        bool quiet = script_done && all_user_ops_done() && !has_net_default && (!injected || extra_pos >= sc.after_inject.size());
+        if (injected && extra_pos < sc.after_inject.size() && script_done && !has_net_default && (!sc.inject || sc.inject->k != Action::DISC || !ops.empty() && [&]{ for (auto& o : ops) if (o.kind == Action::DISC && o.completions == 0) return false; return true; }())) { if (stopped_phase && !stop_snap.done) take_stop_snapshot("after stop"); step_no++; do_action(sc.after_inject[extra_pos++], false); drain(); continue; }
+        bool broker_pending = false;   // the broker still waits for an acknowledgement of something it sent (C04 scenarios)
+        if (sc.monitors & M_C04) for (auto& kv : broker->sessions) for (auto& m : kv.second.out) if (m.qos > 0 && (m.st == bkr::OutMsg::SENT || m.st == bkr::OutMsg::PUBREC_RCVD || m.st == bkr::OutMsg::QUEUED)) broker_pending = true;
+        bool quiet = script_done && all_user_ops_done() && !has_net_default && !broker_pending && (!injected || extra_pos >= sc.after_inject.size());
         if (quiet) {
             if (sc.idle_tail_s > 0) { if (!tail_started) { tail_started = true; tail_until = now() + sc.idle_tail_s * 1000000000LL; }
                 auto t = next_timer(); if (!t || *t > tail_until || now() >= tail_until) break; }
@@ -313,11 +328,23 @@ void World::run(const std::vector<int>& prefix) {
         const Event e = ev[idx];
         if (e.deviation) { deviations++; last_deviation_ns = now(); }
         tr("event: " + e.str() + (e.deviation ? "  (deviation)" : ""));
+        step_no++;
         apply(e);
         drain();
+        for (auto& o : ops) if (o.step_init == step_no && o.out_volume_after == 0) o.out_volume_after = out_volume();
     }
+    epoch_at_quiet = epoch;
+    if (stopped_phase && !stop_snap.done) take_stop_snapshot("after stop");
     epilogue();
     run_monitors(*this);
+}
+
+uint64_t World::out_volume() const {
+    uint64_t v = 0; for (auto& c : net->conns) v += c.bytes_c2b; for (auto& st : net->streams) if (st->write_parked && !st->write_delivered) v += st->write_data.size(); return v;
+}
+void World::take_stop_snapshot(const std::string& what) {
+    stop_snap.done = true; stop_snap.parked = net->parked_count(); stop_snap.timers = pending_timers(); stop_snap.ioc_stopped = ioc->stopped(); stop_snap.t = now(); stop_snap.what = what;
+    stop_snap.incomplete = 0; newer_pending_at_snap = 0; for (auto& o : ops) if (o.completions == 0) { if (o.epoch == 0) stop_snap.incomplete++; else newer_pending_at_snap++; }
 }
 
 void World::epilogue() {
